@@ -1241,8 +1241,17 @@ impl<T: Serialize + for<'de> Deserialize<'de> + Clone + PartialEq + Send + Sync 
             }
         }
 
-        // Sort by timestamp (oldest first for replay)
-        wal_files.sort_by(|a, b| a.file_name().cmp(&b.file_name()));
+        // Oldest first for replay: rotated logs in name order, then the live log,
+        // which always holds the newest records ("state.wal" would otherwise sort
+        // before every "wal.<n>.wal" and be replayed first).
+        let live_name = format!("state.{WAL_EXTENSION}");
+        wal_files.sort_by(|a, b| {
+            let a_live = a.file_name().and_then(|n| n.to_str()) == Some(live_name.as_str());
+            let b_live = b.file_name().and_then(|n| n.to_str()) == Some(live_name.as_str());
+            a_live
+                .cmp(&b_live)
+                .then_with(|| a.file_name().cmp(&b.file_name()))
+        });
 
         Ok(wal_files)
     }
